@@ -553,7 +553,11 @@ fn render_parent_child_fragment<F: Fn() -> TokenStream>(
             let ty = if let Some(depth) = depth { parent_child_field.sub_path[depth].1.as_ref().unwrap() } else { field.ty.as_ref().unwrap() };
             let child_data = ChildRenderContext { ty, type_hint: ctx.struct_attr.type_hint };
             let child_path = ChildPath::new(field.member.clone(), parent_child_field.sub_path.iter().map(|x|x.0.clone()));
-            render_child(&child_data, fields, named_fields, ctx, (&child_path, new_depth), if ctx.input.named_fields() {TypeHint::Struct} else {TypeHint::Tuple})
+            let hint = match &child_path.child_path[new_depth] {
+                Named(_) => TypeHint::Struct,
+                Unnamed(_) => TypeHint::Tuple,
+            };
+            render_child(&child_data, fields, named_fields, ctx, (&child_path, new_depth), hint)
         } else {
             fields.next();
             render_line()
